@@ -297,6 +297,8 @@ def run_case(case, backend="main"):
             except Exception:
                 log.append([5, hid, sid, [2]]); raise
             log.append([5, hid, sid, []])
+            # handlers are procedures: what one returns is nobody's business (every other one returns something truthy)
+            return ("handled", hid) if hid % 2 else None
         # every third handler is a callable WITHOUT __name__ / __qualname__ (functools.partial, like an application that binds
         # arguments): the loop must treat any callable alike
         if hid % 3 == 2:
